@@ -165,13 +165,15 @@ def tie_props():
 
 
 # further proof files whose theorems belong to a property (delta-form model -> C16; second cov file -> C19)
-EXTRA_FILES = {"C16": ["Forms"], "C19": ["C19b"]}
+EXTRA_FILES = {"C16": ["Forms"], "C19": ["C19b"], "C20": ["C20b"], "C17": ["C17b"]}
 
 # which Tie theorems (source-regenerated tables = model tables) serve which property
 TIE_MAP = {
-    "C03": ["tie_sampleSide"],
+    "C03": ["tie_sampleSide", "tie_formConversions"],
+    "C16": ["tie_formConversions"],
     "C05": ["tie_scalarLogic"],
-    "C06": ["tie_clipSides"],
+    "C06": ["tie_clipSides", "tie_maskify"],
+    "C12": ["tie_removeViaValues", "tie_removeViaDeltas"],
     "C10": ["tie_getLims"],
     "C11": ["tie_slicerEndpoint", "tie_slicerCombine"],
     "C14": ["tie_layerPrefix"],
